@@ -246,10 +246,16 @@ type RunConfig struct {
 
 func solveAll(obls []*Obligation, cfg RunConfig) {
 	os.MkdirAll(cfg.WorkDir, 0o755)
+	// block covers run one solver process each: a wider pool for them
+	solvePass(obls, cfg, cfg.Parallel, func(o *Obligation) bool { return !(o.Cover && strings.Contains(o.Name, ":block#")) })
+	solvePass(obls, cfg, cfg.Parallel*4, func(o *Obligation) bool { return o.Cover && strings.Contains(o.Name, ":block#") })
+}
+
+func solvePass(obls []*Obligation, cfg RunConfig, par int, want func(*Obligation) bool) {
 	var wg sync.WaitGroup
-	sem := make(chan struct{}, cfg.Parallel)
+	sem := make(chan struct{}, par)
 	for i, o := range obls {
-		if o.Kind == "unsupported" || o.Kind == "flow" || o.Kind == "bounded" || o.Status != "" {
+		if o.Kind == "unsupported" || o.Kind == "flow" || o.Kind == "bounded" || o.Status != "" || !want(o) {
 			continue
 		}
 		wg.Add(1)
@@ -276,10 +282,15 @@ func solveOne(i int, o *Obligation, cfg RunConfig) {
 	q = "; obligation: " + o.Name + "\n; " + strings.ReplaceAll(o.Desc, "\n", " ") + "\n" + q
 	os.WriteFile(file, []byte(q), 0o644)
 	budget := cfg.Timeout
+	solvers := cfg.Solvers
 	if o.Cover && budget > 4*time.Second {
 		budget = 4 * time.Second // a contradiction shows up at once; 'unknown' is the usual answer
 	}
-	res, _ := raceSolvers(file, budget, cfg.Solvers)
+	if o.Cover && strings.Contains(o.Name, ":block#") {
+		budget = 1500 * time.Millisecond
+		solvers = []string{"z3-new"}
+	}
+	res, _ := raceSolvers(file, budget, solvers)
 	if res.Verdict != "unsat" && res.Verdict != "sat" && !o.Cover && !o.NoRetry {
 		// one retry with a much longer budget: a loaded machine must not turn
 		// a slow proof into an alarm
